@@ -1,11 +1,11 @@
 (* Theory/Upgrade52.v -- C52: the upgrade driver of Model/Upgrade52.v.
-   - whatever the driver does (finish, refuse, run out of fuel), the payload is what it was:
-     revisions, tree parents and changes, branch tip/parent/bound location; tags and push location
-     too unless a format-5 branch is converted (Converter5to6 resets tags -- format 5 has none --
-     and stores "" as push location);
+   - whatever the driver does (finish or refuse), the payload is what it was: revisions, tree
+     parents and changes, branch tip/parent/bound/push location; tags too unless a format-5 branch
+     is converted (Converter5to6 starts with no tags -- format 5 has none);
    - when it finishes, the directory is in the target format;
-   - it does not always finish: two families of inputs on which the loop of Convert.convert
-     provably never ends (any fuel), and a guard under which it does. *)
+   - on every combination of known formats it finishes (after the repairs e09d9b1 and 69d43de;
+     before them a colo target and a lowered tree format made the loop of Convert.convert run
+     for ever). *)
 From Coq Require Import List Bool Arith String Lia.
 Import ListNotations.
 From BV Require Import Lib.Obs Model.Upgrade52.
@@ -20,9 +20,9 @@ Definition branch_rel (a b : option (nat * bpay)) : Prop :=
   | None, None => True
   | Some (fa, pa), Some (fb, pb) =>
       bp_tip pb = bp_tip pa /\ bp_parent pb = bp_parent pa /\ bp_bound pb = bp_bound pa
+      /\ bp_push pb = bp_push pa
       /\ (fa <> 5 -> fb <> 5 /\ pb = pa)
       /\ (bp_tags pa = [] -> bp_tags pb = [])
-      /\ (forall l, bp_push pa = Some l -> bp_push pb = Some l)
   | _, _ => False
   end.
 
@@ -38,19 +38,17 @@ Lemma branch_rel_trans a b c : branch_rel a b -> branch_rel b c -> branch_rel a 
 Proof.
   destruct a as [[fa pa]|], b as [[fb pb]|], c as [[fc pc]|]; cbn; try tauto.
   intros (A1 & A2 & A3 & A4 & A5 & A6) (B1 & B2 & B3 & B4 & B5 & B6).
-  repeat split; try congruence.
-  - destruct (A4 H) as [X _]. destruct (B4 X) as [Y _]. exact Y.
-  - destruct (A4 H) as [X ->]. destruct (B4 X) as [_ ->]. reflexivity.
+  split; [congruence|]. split; [congruence|]. split; [congruence|]. split; [congruence|]. split.
+  - intros H. destruct (A5 H) as [X ->]. destruct (B5 X) as [Y ->]. auto.
   - auto.
-  - intros l Hl. apply B6, A6, Hl.
 Qed.
 
 Lemma payload_rel_refl d : payload_rel d d.
-Proof. repeat split. apply branch_rel_refl. Qed.
+Proof. split; [reflexivity|]. split; [reflexivity|]. apply branch_rel_refl. Qed.
 
 Lemma payload_rel_trans a b c : payload_rel a b -> payload_rel b c -> payload_rel a c.
 Proof.
-  intros (A1 & A2 & A3) (B1 & B2 & B3). repeat split; try congruence.
+  intros (A1 & A2 & A3) (B1 & B2 & B3). split; [congruence|]. split; [congruence|].
   eapply branch_rel_trans; eauto.
 Qed.
 
@@ -60,14 +58,14 @@ Proof.
   unfold branch_step.
   destruct ((old =? 5) && ((new =? 6) || (new =? 7) || (new =? 8))) eqn:E1.
   - intros H. injection H as <- <-. apply andb_prop in E1 as [E1 _]. apply Nat.eqb_eq in E1. subst old.
-    cbn. split; [reflexivity|]. split; [reflexivity|]. split; [reflexivity|].
-    split; [intros Hn; contradiction|]. split; [reflexivity|]. intros l ->. reflexivity.
+    cbn. split; [reflexivity|]. split; [reflexivity|]. split; [reflexivity|]. split; [reflexivity|].
+    split; [intros Hn; contradiction|reflexivity].
   - destruct ((old =? 6) && ((new =? 7) || (new =? 8))) eqn:E2.
     + intros H. injection H as <- <-. cbn. split; [reflexivity|]. split; [reflexivity|]. split; [reflexivity|].
-      split; [intros _; split; [discriminate|reflexivity]|]. split; auto.
+      split; [reflexivity|]. split; [intros _; split; [discriminate|reflexivity]|auto].
     + destruct ((old =? 7) && (new =? 8)) eqn:E3; [|discriminate].
       intros H. injection H as <- <-. cbn. split; [reflexivity|]. split; [reflexivity|]. split; [reflexivity|].
-      split; [intros _; split; [discriminate|reflexivity]|]. split; auto.
+      split; [reflexivity|]. split; [intros _; split; [discriminate|reflexivity]|auto].
 Qed.
 
 Lemma branch_chain_rel : forall fuel old new p o' p',
@@ -85,14 +83,15 @@ Proof.
   unfold meta_to_meta, payload_rel.
   destruct (c_repo d) as [[r revs]|]; destruct (c_branch d) as [[b p]|] eqn:Eb;
     try destruct (branch_chain 3 b (tg_branch f) p) as [[b' p']|] eqn:Ec;
-    destruct (c_tree d) as [[t tp]|]; cbn [fst c_repo c_tree c_branch option_map snd];
-    try destruct (rf_id r =? rf_id (tg_repo f)); cbn [option_map snd]; rewrite ?Eb;
+    destruct (c_tree d) as [[t tp]|] eqn:Et; try destruct (tree_convert t (tg_tree f));
+    cbn [fst c_repo c_tree c_branch option_map snd];
+    try destruct (rf_id r =? rf_id (tg_repo f)); cbn [option_map snd]; rewrite ?Eb, ?Et; cbn [option_map snd];
     (split; [reflexivity|split; [reflexivity|]]);
     first [ exact (branch_chain_rel _ _ _ _ _ _ Ec) | exact (branch_rel_refl _) ].
 Qed.
 
 Lemma meta_to_colo_rel d f : payload_rel d (meta_to_colo d f).
-Proof. repeat split. apply branch_rel_refl. Qed.
+Proof. split; [reflexivity|]. split; [reflexivity|]. apply branch_rel_refl. Qed.
 
 Lemma convert_loop_rel : forall fuel d f, payload_rel d (cdir_of (convert_loop fuel d f)).
 Proof.
@@ -109,17 +108,8 @@ Theorem upgrade_preserves d f : payload_rel d (cdir_of (convert d f)).
 Proof.
   unfold convert. destruct (negb (needs_conv d f)); [apply payload_rel_refl|].
   destruct (check_target d f); [apply payload_rel_refl|].
-  eapply payload_rel_trans; [|apply convert_loop_rel]. repeat split. apply branch_rel_refl.
-Qed.
-
-(* the part of the branch payload that Converter5to6 does NOT carry over *)
-Theorem upgrade_push_location_refuted :
-  exists d f p p', c_branch d = Some (5, p) /\ c_branch (cdir_of (convert d f)) = Some (7, p')
-                   /\ bp_push p = None /\ bp_push p' = Some 0.
-Proof.
-  exists (mkCD false (Some (mkRF 1 false false, [1])) (Some (5, mkBP 1 [] None None None)) None false),
-         (mkTF false (mkRF 9 true true) 7 6).
-  eexists. eexists. vm_compute. repeat split.
+  eapply payload_rel_trans; [|apply convert_loop_rel].
+  split; [reflexivity|]. split; [reflexivity|]. apply branch_rel_refl.
 Qed.
 
 (* ---- when the driver finishes, the format is the target's ----------------------------------- *)
@@ -139,82 +129,42 @@ Proof.
   destruct (check_target d f); [discriminate|]. apply convert_loop_done.
 Qed.
 
-(* ---- divergence ------------------------------------------------------------------------------- *)
+(* ---- termination -------------------------------------------------------------------------------- *)
 
-(* a colo target: get_converter answers ConvertMetaToColo for ever *)
-Lemma colo_loop_hangs d f :
-  tg_colo f = true -> c_colo d = true -> needs_conv d f = true ->
-  forall fuel, convert_loop fuel d f = Hangs d.
+(* the metadir flavour is switched at most once: afterwards get_converter answers ConvertMetaToMeta *)
+Lemma colo_switched_once d f : get_converter (meta_to_colo d f) f = false.
+Proof. unfold get_converter, meta_to_colo. cbn. destruct (tg_colo f); reflexivity. Qed.
+
+Lemma meta_keeps_colo d f : c_colo (fst (meta_to_meta d f)) = c_colo d.
 Proof.
-  intros Hf Hd Hn. induction fuel as [|k IH]; cbn; rewrite Hn; [reflexivity|].
-  unfold get_converter. rewrite Hf.
-  replace (meta_to_colo d f) with d; [exact IH|].
-  unfold meta_to_colo. rewrite Hf, <- Hd. destruct d; reflexivity.
+  unfold meta_to_meta.
+  destruct (c_branch d) as [[b p]|]; try destruct (branch_chain 3 b (tg_branch f) p);
+    destruct (c_tree d) as [[t tp]|]; try destruct (tree_convert t (tg_tree f)); reflexivity.
 Qed.
 
-Theorem upgrade_colo_diverges d f :
-  tg_colo f = true -> needs_conv (meta_to_colo d f) f = true ->
-  forall fuel, exists d', convert_loop fuel d f = Hangs d'.
-Proof.
-  intros Hf Hn fuel. destruct fuel as [|k]; cbn.
-  - assert (E : needs_conv d f = true).
-    { unfold needs_conv, meta_to_colo in *. cbn in Hn. rewrite Hf in *. cbn in Hn.
-      destruct (c_colo d); cbn; [exact Hn|reflexivity]. }
-    rewrite E. eauto.
-  - assert (E : needs_conv d f = true).
-    { unfold needs_conv, meta_to_colo in *. cbn in Hn. rewrite Hf in *. cbn in Hn.
-      destruct (c_colo d); cbn; [exact Hn|reflexivity]. }
-    rewrite E. unfold get_converter. rewrite Hf.
-    rewrite (colo_loop_hangs (meta_to_colo d f) f Hf); [eauto| |exact Hn].
-    unfold meta_to_colo. cbn. exact Hf.
-Qed.
-
-(* a ConvertMetaToMeta pass that changes nothing although a conversion is still needed *)
-Lemma stuck_loop_hangs d f :
-  get_converter d f = false -> meta_to_meta d f = (d, false) -> needs_conv d f = true ->
-  forall fuel, convert_loop fuel d f = Hangs d.
-Proof.
-  intros Hg Hm Hn. induction fuel as [|k IH]; cbn; rewrite Hn; [reflexivity|]. rewrite Hg, Hm. exact IH.
-Qed.
-
-(* witnesses replayed on the real code (corpus of harness/props/c52.py): 1.14-rich-root -> development-colo,
-   1.14 -> 1.9 (working tree format 5 -> 4) *)
+(* the former witnesses of divergence (corpus of harness/props/c52.py) now finish:
+   1.14-rich-root -> development-colo converts, 1.14 -> 1.9 (tree format 5 -> 4) is refused *)
 Definition w_colo_src : cdir :=
-  mkCD false (Some (mkRF 8 true false, [1; 2])) (Some (7, mkBP 2 [] None None None)) (Some (5, mkTP [2] [])) true.
+  mkCD false (Some (mkRF 8 true false, [1; 2])) (Some (7, mkBP 2 [] None None None)) (Some (5, mkTP [2] [])) false.
 Definition w_colo_tgt : tfmt := mkTF true (mkRF 9 true true) 7 6.
 Definition w_down_src : cdir :=
-  mkCD false (Some (mkRF 7 false false, [1; 2])) (Some (7, mkBP 2 [] None None None)) (Some (5, mkTP [2] [])) true.
+  mkCD false (Some (mkRF 7 false false, [1; 2])) (Some (7, mkBP 2 [] None None None)) (Some (5, mkTP [2] [])) false.
 Definition w_down_tgt : tfmt := mkTF false (mkRF 7 false false) 7 4.
 
-Theorem upgrade_terminates_refuted :
-  (forall fuel, exists d', convert_loop fuel w_colo_src w_colo_tgt = Hangs d')
-  /\ (forall fuel, convert_loop fuel w_down_src w_down_tgt = Hangs w_down_src).
-Proof.
-  split.
-  - apply upgrade_colo_diverges; reflexivity.
-  - apply stuck_loop_hangs; reflexivity.
-Qed.
-
-(* ---- termination under an executable guard ---------------------------------------------------- *)
-
-Definition in_range (lo hi x : nat) : bool := (lo <=? x) && (x <=? hi).
-
-(* known formats; not a colo target; the working tree format is not lowered (6 -> 5 happens to work) *)
-Definition upgrade_guard (d : cdir) (f : tfmt) : bool :=
-  negb (tg_colo f)
-  && in_range 5 8 (tg_branch f) && in_range 3 6 (tg_tree f)
-  && match c_branch d with Some (b, _) => in_range 5 8 b | None => true end
-  && match c_tree d with
-     | Some (t, _) => in_range 3 6 t && ((t <=? tg_tree f) || ((t =? 6) && (tg_tree f =? 5)))
-     | None => true
-     end.
+Example former_hang_witnesses_finish :
+  convert w_colo_src w_colo_tgt
+  = Done (mkCD true (Some (mkRF 9 true true, [1; 2])) (Some (7, mkBP 2 [] None None None)) (Some (6, mkTP [2] [])) true)
+  /\ convert w_down_src w_down_tgt
+     = Raised "BadConversionTarget"
+              (mkCD false (Some (mkRF 7 false false, [1; 2])) (Some (7, mkBP 2 [] None None None)) (Some (5, mkTP [2] [])) true).
+Proof. split; vm_compute; reflexivity. Qed.
 
 Definition finishes (o : outcome) : bool := match o with Hangs _ => false | _ => true end.
 
 (* Every combination of formats (the behaviour of the driver does not look at the payload; this
    independence is NOT proved, hence _partial): colo or not; no repository or one of either class
    with every rich-root/tree-reference flag; no branch or format 5..8; no tree or format 3..6;
-   every target built from the same ranges. *)
+   every target built from the same ranges -- upgrades, downgrades and nonsense alike. *)
 Definition bools := [false; true].
 Definition skel_repos : list (option (rfmt * list nat)) :=
   None :: flat_map (fun rich => map (fun tr => Some (mkRF 1 rich tr, [1])) bools) bools.
@@ -229,27 +179,18 @@ Definition skel_targets : list tfmt :=
   flat_map (fun c => flat_map (fun id => flat_map (fun rich => flat_map (fun tr =>
     flat_map (fun b => map (fun t => mkTF c (mkRF id rich tr) b t) [3; 4; 5; 6]) [5; 6; 7; 8]) bools) bools) [1; 2]) bools.
 
-Theorem upgrade_terminates_guarded_partial d f :
-  In d skel_dirs -> In f skel_targets -> upgrade_guard d f = true -> finishes (convert d f) = true.
+Theorem upgrade_terminates_partial d f :
+  In d skel_dirs -> In f skel_targets -> finishes (convert d f) = true.
 Proof.
   intros Hd Hf.
-  assert (H : forallb (fun d => forallb (fun f => implb (upgrade_guard d f) (finishes (convert d f))) skel_targets)
-                      skel_dirs = true) by (vm_compute; reflexivity).
-  rewrite forallb_forall in H. specialize (H d Hd). rewrite forallb_forall in H. specialize (H f Hf).
-  intros Hg. rewrite Hg in H. exact H.
+  assert (H : forallb (fun d => forallb (fun f => finishes (convert d f)) skel_targets) skel_dirs = true)
+    by (vm_compute; reflexivity).
+  rewrite forallb_forall in H. specialize (H d Hd). rewrite forallb_forall in H. exact (H f Hf).
 Qed.
 
-(* conversely, on the same domain, whenever the driver hangs the guard is false *)
-Theorem upgrade_hang_iff_guard_partial d f :
-  In d skel_dirs -> In f skel_targets -> in_range 5 8 (tg_branch f) = true ->
-  finishes (convert d f) = false -> upgrade_guard d f = false.
-Proof.
-  intros Hd Hf _ Hh. destruct (upgrade_guard d f) eqn:E; [|reflexivity].
-  rewrite (upgrade_terminates_guarded_partial d f Hd Hf E) in Hh. discriminate Hh.
-Qed.
-
-(* the guard is satisfiable by a real upgrade: knit (branch 5, tree 3) -> 2a *)
-Example upgrade_guard_example :
-  upgrade_guard (mkCD false (Some (mkRF 1 false false, [1])) (Some (5, mkBP 1 [] None None None)) (Some (3, mkTP [1] [1])) false)
-                (mkTF false (mkRF 9 true true) 7 6) = true.
-Proof. reflexivity. Qed.
+(* a real upgrade: knit (branch 5, tree 3) -> 2a takes two tree passes and finishes in the target format *)
+Example upgrade_knit_example :
+  convert (mkCD false (Some (mkRF 1 false false, [1])) (Some (5, mkBP 1 [] None None None)) (Some (3, mkTP [1] [1])) false)
+          (mkTF false (mkRF 9 true true) 7 6)
+  = Done (mkCD false (Some (mkRF 9 true true, [1])) (Some (7, mkBP 1 [] None None None)) (Some (6, mkTP [1] [1])) true).
+Proof. vm_compute. reflexivity. Qed.
